@@ -75,10 +75,11 @@ ncreset_cdflist(void)
                 fprintf(stderr, "%d is not NULL\n", i);
                 return -1;
             }
-        /* Release _cdfs and reset its size */
+        /* Release _cdfs and reset its size and the number of positions in use */
         free(_cdfs);
         _cdfs      = NULL;
         _cdfs_size = 0;
+        _ncdf      = 0;
     }
     return 0;
 }
